@@ -27,7 +27,8 @@ def build():
     """compile once per process; returns (python module, ctypes lib) or raises"""
     if 'mod' in _STATE:
         return _STATE['mod'], _STATE['lib']
-    tmp = tempfile.mkdtemp(prefix='vq_native_')
+    # pool workers leave through os._exit (no atexit): build inside the run directory the driver removes at the end
+    tmp = tempfile.mkdtemp(prefix='vq_native_', dir=os.environ.get('VQ_TMP') or None)
     atexit.register(shutil.rmtree, tmp, True)
     sim = os.path.join(REPO, 'qubovert', 'sim')
     ext = sysconfig.get_config_var('EXT_SUFFIX')
